@@ -452,11 +452,137 @@ func builtin(r *rep.Report) {
 	}
 }
 
+// collisions: the built-in cron serves all locations; (location, rule id) pairs whose
+// naive concatenations coincide must still be different jobs.  Every-second rules write
+// a tick fact into their own location; after ~2.6 s both locations must have ticked.
+func collisions(r *rep.Report) {
+	type res struct {
+		sep    string
+		linear bool
+		ticks  map[string]bool
+		late   time.Duration
+		err    string
+	}
+	seps := []string{":", "/", ",", "|", ".", "-", "_", " ", "\n", "\x00"}
+	out := make(chan res, 2*len(seps))
+	n := 0
+	for i, sep := range seps {
+		n++
+		go func(sep string, linear bool) {
+			rs := res{sep: sep, linear: linear, ticks: map[string]bool{}}
+			ctx := drv.Ctx()
+			cr, _ := cron.NewCron(cron.NewCronBroadcaster(), time.Second, "verif-coll", 100000)
+			go cr.Start(ctx)
+			conf := sys.ExampleConfig()
+			conf.UnindexedState = linear
+			cont := sys.ExampleSystemControl()
+			cont.LocationTTL = sys.Forever
+			cont.DefaultLocControl = &core.Control{MaxFacts: 1000, Verbosity: core.NOTHING}
+			s, err := sys.NewSystem(ctx, *conf, *cont, &cron.InternalCron{Cron: cr})
+			if err != nil {
+				rs.err = err.Error()
+				out <- rs
+				return
+			}
+			pairs := [][2]string{{"acct", "dev1" + sep + "tick"}, {"acct" + sep + "dev1", "tick"}}
+			start := time.Now()
+			for _, p := range pairs {
+				rule := `{"schedule":"* * * * * * *","action":{"code":"Env.AddFact('ticked',{at:location}); 1"}}`
+				if _, err := s.AddRule(drv.Ctx(), p[0], p[1], rule); err != nil {
+					rs.err = err.Error()
+				}
+			}
+			canary := make(chan time.Duration, 1)
+			time.AfterFunc(time.Second, func() { canary <- time.Since(start) })
+			time.Sleep(2600 * time.Millisecond)
+			rs.late = <-canary - time.Second
+			for _, p := range pairs {
+				if f, err := s.GetFact(drv.Ctx(), p[0], "ticked"); err == nil && strings.Contains(f, `"at"`) {
+					rs.ticks[p[0]] = true
+				}
+			}
+			cr.Kill(ctx)
+			out <- rs
+		}(sep, i%2 == 1)
+	}
+	for i := 0; i < n; i++ {
+		rs := <-out
+		r.Case(true, fmt.Sprint("collision", rs.sep, rs.linear))
+		r.Count("builtin_cron_collision_pairs", 1)
+		wit := rep.J{"builtin_cron": true, "linear": rs.linear, "locations": []string{"acct", "acct" + rs.sep + "dev1"}, "rule_ids": []string{"dev1" + rs.sep + "tick", "tick"}, "ticked": rs.ticks, "error": rs.err}
+		if rs.err != "" {
+			if strings.ContainsAny(rs.sep, "\n\x00") {
+				continue // such names may be refused
+			}
+			r.Violate("", "scheduling an every-second rule failed: "+rs.err, wit)
+			continue
+		}
+		if rs.late > time.Second {
+			r.Inconclusive("canary late")
+			continue
+		}
+		if len(rs.ticks) != 2 {
+			r.Violate("", "two every-second rules in two locations whose (location, id) pairs concatenate alike: after 2.6 s only one location has ticked (their cron jobs collide)", wit)
+		}
+	}
+}
+
+// restart: an engine over persistent (bolt) storage with a non-persistent cron is shut
+// down and a new engine is started on the same file: the first request to the location
+// loads it, and that load must register its scheduled rule again.
+func restart(r *rep.Report, e rep.Env) {
+	for _, linear := range []bool{false, true} {
+		path := fmt.Sprintf("%s/c15-restart-%v.db", e.Out, linear)
+		os.Remove(path)
+		mk := func(rec *cronner.Recorder) (*sys.System, error) {
+			conf := sys.ExampleConfig()
+			conf.Storage = "bolt"
+			conf.StorageConfig = path
+			conf.UnindexedState = linear
+			cont := sys.ExampleSystemControl()
+			cont.LocationTTL = sys.Forever
+			cont.DefaultLocControl = &core.Control{MaxFacts: 1000, Verbosity: core.NOTHING}
+			return sys.NewSystem(drv.Ctx(), *conf, *cont, rec)
+		}
+		rec1 := cronner.New(false)
+		s1, err := mk(rec1)
+		if err != nil {
+			r.Violate("", "cannot build a bolt-backed system: "+err.Error(), nil)
+			continue
+		}
+		rule := `{"schedule":"0 0 1 1 *","action":{"code":"'tick'"}}`
+		if _, err := s1.AddRule(drv.Ctx(), "R", "sched", rule); err != nil {
+			r.Violate("", "AddRule failed: "+err.Error(), nil)
+		}
+		s1.Close(drv.Ctx())
+		rec2 := cronner.New(false) // the restarted process has an empty in-memory cron
+		s2, err := mk(rec2)
+		if err != nil {
+			r.Violate("", "cannot restart on the bolt file: "+err.Error(), nil)
+			continue
+		}
+		_, gerr := s2.GetRule(drv.Ctx(), "R", "sched") // first request: loads the location
+		jobs := rec2.Jobs()
+		r.Case(true, fmt.Sprint("restart", linear))
+		r.Count("restarts", 1)
+		wit := rep.J{"restart_on_bolt": true, "linear": linear, "registered_before": rec1.Jobs(), "registered_after_restart": jobs, "get_rule_error": drv.ErrStr(gerr)}
+		if gerr != nil {
+			r.Violate("", "the scheduled rule is not there after the restart: "+gerr.Error(), wit)
+		} else if len(jobs) != 1 || jobs[0].Id != "sched" || jobs[0].Location != "R" {
+			r.Violate("", "with a non-persistent cron a location loaded after a restart did not register its scheduled rule again", wit)
+		}
+		s2.Close(drv.Ctx())
+		os.Remove(path)
+	}
+}
+
 func main() {
 	e := rep.GetEnv()
 	r := rep.New(e)
 	switch e.Stage {
 	case "timed":
+		restart(r, e)
+		collisions(r)
 		expiry(r)
 		builtin(r)
 	default:
